@@ -105,37 +105,69 @@ func runC12(c *an.Ctx) {
 	}
 
 	// --- C12.b Wait: one critical section for re-check + registration
+	// The critical section may live in Wait itself or in a helper method of heightSub that Wait
+	// calls with the requested height (extracted "subscribe" step): `sec` is the function that
+	// holds it, `hp` the term of the requested height in it.
 	wt, wf := c.T(wait), c.F(wait)
-	isLock := mutexOp(wt, "heightSubsLk", "Lock")
-	isUnlock := mutexOp(wt, "heightSubsLk", "Unlock")
-	var recheck *ssa.If
-	var recheckFact an.Fact
-	for _, b := range wait.Blocks {
-		iff, isIf := b.Instrs[len(b.Instrs)-1].(*ssa.If)
-		if !isIf {
-			continue
+	findRecheck := func(fn *ssa.Function, hp string) (*ssa.If, an.Fact) {
+		ft := c.T(fn)
+		lk, ul := mutexOp(ft, "heightSubsLk", "Lock"), mutexOp(ft, "heightSubsLk", "Unlock")
+		var rc *ssa.If
+		var rf an.Fact
+		for _, b := range fn.Blocks {
+			iff, isIf := b.Instrs[len(b.Instrs)-1].(*ssa.If)
+			if !isIf {
+				continue
+			}
+			f := ft.Cond(iff.Cond)
+			if f.Op == "LT" && f.B == hp && strings.Contains(f.A, "Height") && an.LockHeld(fn, lk, ul, iff, nil) {
+				rc, rf = iff, f
+			}
 		}
-		f := wt.Cond(iff.Cond)
-		if f.Op == "LT" && f.B == "p2" && strings.Contains(f.A, "Height") && an.LockHeld(wait, isLock, isUnlock, iff, nil) {
-			recheck, recheckFact = iff, f
-		}
+		return rc, rf
+	}
+	sec, hp := wait, "p2"
+	var secCall *ssa.Call
+	recheck, recheckFact := findRecheck(wait, "p2")
+	if recheck == nil {
+		an.Instrs(wait, func(in ssa.Instruction) {
+			call, isCall := in.(*ssa.Call)
+			if !isCall || recheck != nil {
+				return
+			}
+			cal := an.StaticCallee(&call.Call)
+			if cal == nil || cal.Blocks == nil || !strings.HasPrefix(an.FuncName(cal), "store.(*heightSub).") {
+				return
+			}
+			for i, a := range call.Call.Args {
+				if wt.Of(a) == "p2" {
+					if rc, rf := findRecheck(cal, "p"+itoa(i)); rc != nil {
+						sec, hp, secCall, recheck, recheckFact = cal, "p"+itoa(i), call, rc, rf
+					}
+				}
+			}
+		})
 	}
 	if !c.Check(recheck != nil, "C12.b", "recheck-under-lock", "Wait re-reads the published height and compares it with the requested height while holding the lock", wait, nil, "", nil) {
 		return
 	}
+	_ = hp
+	st, sf := c.T(sec), c.F(sec)
+	isLock := mutexOp(st, "heightSubsLk", "Lock")
+	isUnlock := mutexOp(st, "heightSubsLk", "Unlock")
 	// the height read used by the re-check happens under the lock too
 	if bo, isBO := recheck.Cond.(*ssa.BinOp); isBO {
 		for _, side := range []ssa.Value{bo.X, bo.Y} {
 			if call, isCall := side.(*ssa.Call); isCall {
-				c.Check(an.LockHeld(wait, isLock, isUnlock, call, nil), "C12.b", "height-read-under-lock", "the height compared in the re-check is read after the lock was taken", wait, call, "", nil)
+				c.Check(an.LockHeld(sec, isLock, isUnlock, call, nil), "C12.b", "height-read-under-lock", "the height compared in the re-check is read after the lock was taken", sec, call, "", nil)
 			}
 		}
 	}
 	var regs []ssa.Instruction
-	an.Instrs(wait, func(in ssa.Instruction) {
+	an.Instrs(sec, func(in ssa.Instruction) {
 		switch x := in.(type) {
 		case *ssa.MapUpdate:
-			if isRecvField(wt, x.Map, "heightSubs") {
+			if isRecvField(st, x.Map, "heightSubs") {
 				regs = append(regs, x)
 			}
 		case *ssa.Store:
@@ -146,23 +178,47 @@ func runC12(c *an.Ctx) {
 	})
 	c.Min("C12.b", "registration writes in Wait (map insert, count++)", len(regs), 2)
 	for _, r := range regs {
-		held := an.LockHeld(wait, isLock, isUnlock, r, nil)
-		noGap := (an.Flow{Fn: wait}).Between(recheck, r, isUnlock) == nil
-		fs := wf.AtInstr(r)
+		held := an.LockHeld(sec, isLock, isUnlock, r, nil)
+		noGap := (an.Flow{Fn: sec}).Between(recheck, r, isUnlock) == nil
+		fs := sf.AtInstr(r)
 		c.Check(held && noGap && fs.Has(an.Fact{Atom: recheckFact.Atom, Pos: true}), "C12.b", "register-in-same-section",
-			"the waiter is registered under the lock, in the same critical section as the re-check that found the height not yet published", wait, r, "", fs)
+			"the waiter is registered under the lock, in the same critical section as the re-check that found the height not yet published", sec, r, "", fs)
 	}
 	// elapsed: unlock, return errElapsedHeight, no blocking op
-	prEl := wf.Prune(an.Fact{Atom: recheckFact.Atom, Pos: false})
-	for _, r := range prEl.Returns() {
-		c.Check(wt.ErrShape(errResult(r)) == "S:"+elapsed, "C12.e", "elapsed-returns-signal", "a height at or below the published height returns the elapsed-height signal", wait, r, wt.ErrShape(errResult(r)), nil)
-		c.Check(!an.LockHeld(wait, isLock, isUnlock, r, prEl.Removed), "C12.e", "elapsed-unlocks", "the elapsed path releases the lock before returning", wait, r, "", nil)
+	prEl := sf.Prune(an.Fact{Atom: recheckFact.Atom, Pos: false})
+	deferredUnlock := func(r ssa.Instruction) bool {
+		return (an.Flow{Fn: sec}).MustPrecedeAny(func(in ssa.Instruction) bool {
+			d, isD := in.(*ssa.Defer)
+			return isD && isUnlock(d)
+		}, r)
 	}
-	an.Instrs(wait, func(in ssa.Instruction) {
+	for _, r := range prEl.Returns() {
+		c.Check(st.ErrShape(errResult(r)) == "S:"+elapsed, "C12.e", "elapsed-returns-signal", "a height at or below the published height returns the elapsed-height signal", sec, r, st.ErrShape(errResult(r)), nil)
+		c.Check(!an.LockHeld(sec, isLock, isUnlock, r, prEl.Removed) || deferredUnlock(r), "C12.e", "elapsed-unlocks", "the elapsed path releases the lock before returning (explicitly or by a deferred unlock)", sec, r, "", nil)
+	}
+	an.Instrs(sec, func(in ssa.Instruction) {
 		if _, isSel := in.(*ssa.Select); isSel && prEl.Reachable(in.Block()) {
-			c.Fail("C12.e", "elapsed-blocks", "the elapsed path performs no blocking operation", wait, in, "select reachable", nil)
+			c.Fail("C12.e", "elapsed-blocks", "the elapsed path performs no blocking operation", sec, in, "select reachable", nil)
 		}
 	})
+	if secCall != nil {
+		// the extracted section reports through its error: Wait hands it on and does not block
+		sErr := wt.Of(secCall) + "#1"
+		prS := wf.Prune(an.NE(sErr, "nil"))
+		okS := len(prS.Returns()) > 0
+		for _, r := range prS.Returns() {
+			if prS.AtInstr(r).Has(an.NE(sErr, "nil")) {
+				okS = okS && strings.Contains(wt.ErrShape(errResult(r)), sErr)
+			}
+		}
+		an.Instrs(wait, func(in ssa.Instruction) {
+			if _, isSel := in.(*ssa.Select); isSel && prS.Reachable(in.Block()) {
+				okS = false
+			}
+		})
+		c.Check(okS, "C12.e", "section-outcome-returned", "when the registration step reports the elapsed-height signal Wait returns it at once, without blocking", wait, secCall, "", nil)
+		isLock, isUnlock = mutexOp(wt, "heightSubsLk", "Lock"), mutexOp(wt, "heightSubsLk", "Unlock")
+	}
 	// blocking select
 	nSel := 0
 	an.Instrs(wait, func(in ssa.Instruction) {
